@@ -474,6 +474,20 @@ def _iter(g, scale):
                         g.emit("next? %s" % u)
                     g.emit("peek? %s" % u)
         g.count("iterbm:advance-across-absent-chunks")
+    # batch iteration with EVERY mixture of buffer lengths including 0 (nil / empty window) in the middle of the walk, through both
+    # batch methods (NextMany, NextMany64 with a high-bits mask), over array / bitmap / run chunks and values straddling chunk edges
+    for j, rep in enumerate(["0:A:5,300,65535;1:A:0,1;2:B:32768:5555555555555555*1024;3:R:0+9,20+65515;9:R:7+3,100+50,65000+535",
+                             "7:R:0+65535;8:R:0+65535;9:A:0", "4:B:4097:ffffffffffffffff*64.1.0*959"]):
+        x = "mz%d" % j
+        g.emit("mkrepr %s cow=0;%s" % (x, rep))
+        for sizes in ([100, 0], [0, 1], [4096, 0, 0, 17], [0], [1, 0, 65536, 0, 3], [65535, 0, 2], [7, 64, 0, 256, 1000]):
+            for meth in ("many", "manyhs"):
+                i = g.fresh("mzi")
+                g.emit("mit %s %s" % (i, x))
+                for n in sizes:
+                    g.emit("many %s %d" % (i, n) if meth == "many" else "manyhs %s %d %d" % (i, n, 5 << 32))
+                g.emit("drain %s" % i)
+        g.count("iterbm:many-with-zero-length-buffers")
     # the full universe: 65536 full chunks; Ranges must merge them all, the unset iterators must find nothing
     if r.random() < 0.5:
         g.count("iterbm:universe")
